@@ -8,6 +8,8 @@ package main
 //                     (target and the directories beside it that damage symlinks point to);
 //                     the model (Heal/Validator.v + Heal/Healer.v on FS/Ops.v) is run under several
 //                     schedules and channel capacities; every Go outcome must be among the model's.
+//         ""        : heal cases judged by the oracle only: symlink destinations the model's names
+//                     cannot express ("./x", "x/", "a//b", absolute, ...) and files of more than 4 MiB.
 //         "fsmodel" : the filesystem model itself (c06_fs.go).
 //
 // The filesystem the model sees is the case's base directory: it contains the target "t0" and
@@ -227,11 +229,78 @@ func coqTree(t hTree) string {
 const healBS = 65536
 
 var healSmallSizes = []int{0, 0, 1, 2, 17, 100, 300}
-var healBlockSizes = []int{healBS - 1, healBS, healBS + 1, 2 * healBS, 2*healBS + 1, 3*healBS + 17}
+var healBlockSizes = []int{healBS - 1, healBS, healBS + 1, 2 * healBS, 2*healBS + 1, 3*healBS + 17, 3 * healBS}
+
+// sizes for the block-wise damage patterns: whole numbers of blocks (the last signed block is a
+// full one) / a short last block
+var healAlignedSizes = []int{2 * healBS, 3 * healBS, 2 * healBS, 4 * healBS}
+var healUnalignedSizes = []int{2*healBS + 1, 3*healBS - 1, healBS + 300, 2*healBS + 17}
 
 type healBuildOpts struct {
 	MaxDirs, MaxFiles, MaxLinks int
-	Blocky                      int // number of files with sizes around block multiples
+	Blocky                      int   // number of files with sizes around block multiples
+	Sizes                       []int // when set: the sizes of the first len(Sizes) files
+	MinLinks                    int
+	// OddLinks: symlink destinations that are legal but not in canonical form.
+	// 0 = none; 1 = a third of the links, 3 = every link gets a detour through ".."
+	// ("n3/../d0/f1", "d0/f1/n3/..": the model can express those); 2 = every link gets one of all
+	// the forms ("./x", "x/", "a//b", "a/./b", "a/../b", "x/.", absolute, odd characters:
+	// oracle-only cases).
+	OddLinks int
+}
+
+// oddDest rewrites a canonical relative destination into an equivalent or at least legal
+// destination string that filepath.Clean would change (form < 0: a random one of all forms).
+func oddDest(r *lib.Rng, dest string, form int) string {
+	if form < 0 {
+		form = r.Intn(10)
+	}
+	slash := strings.LastIndex(dest, "/")
+	switch form {
+	case 0: // a detour through ".." in front of the last component (or of everything)
+		det := fmt.Sprintf("n%d/../", r.Intn(10))
+		return dest[:slash+1] + det + dest[slash+1:]
+	case 1:
+		return "./" + dest
+	case 2:
+		return dest + "/"
+	case 3:
+		if slash >= 0 {
+			return dest[:slash] + "//" + dest[slash+1:]
+		}
+		return dest + "//"
+	case 4:
+		if slash >= 0 {
+			return dest[:slash] + "/./" + dest[slash+1:]
+		}
+		return "././" + dest
+	case 5:
+		return dest + "/."
+	case 6: // a detour behind the destination: "d0/.." style endings
+		return dest + fmt.Sprintf("/n%d/..", r.Intn(10))
+	case 7: // absolute (dangling: nothing of that name exists), not clean
+		return "/n0/verif-no-such-dir//" + dest
+	case 8: // characters that a path conversion could touch
+		return dest + `\x y`
+	default:
+		return "./" + dest + "//"
+	}
+}
+
+// destRepresentable: the model's destinations are lists of names (one letter + number) and ".."
+func destRepresentable(d string) bool {
+	if d == "" {
+		return false
+	}
+	for _, c := range strings.Split(d, "/") {
+		if c == ".." {
+			continue
+		}
+		if _, err := compID(c); err != nil {
+			return false
+		}
+	}
+	return true
 }
 
 // genHealBuild returns a build (paths relative to the target) with nested directories (some
@@ -260,6 +329,9 @@ func genHealBuild(r *lib.Rng, o healBuildOpts) hTree {
 		return d + "/" + n
 	}
 	nf := r.Range(1, o.MaxFiles)
+	if nf < len(o.Sizes) {
+		nf = len(o.Sizes)
+	}
 	var files []string
 	for i := 0; i < nf; i++ {
 		d := dirs[r.Intn(len(dirs))]
@@ -267,11 +339,17 @@ func genHealBuild(r *lib.Rng, o healBuildOpts) hTree {
 		if i < o.Blocky {
 			size = healBlockSizes[r.Intn(len(healBlockSizes))]
 		}
+		if i < len(o.Sizes) {
+			size = o.Sizes[i]
+		}
 		p := join(d, fmt.Sprintf("f%d", i))
 		t[p] = hNode{Kind: "file", Data: structuredContent(r, size)}
 		files = append(files, p)
 	}
 	nl := r.Intn(o.MaxLinks + 1)
+	if nl < o.MinLinks {
+		nl = o.MinLinks
+	}
 	for i := 0; i < nl; i++ {
 		d := dirs[r.Intn(len(dirs))]
 		p := join(d, fmt.Sprintf("l%d", i))
@@ -288,6 +366,12 @@ func genHealBuild(r *lib.Rng, o healBuildOpts) hTree {
 			if d == "" {
 				dest = fmt.Sprintf("n%d/f0", r.Intn(10))
 			}
+		}
+		switch {
+		case o.OddLinks == 3 || (o.OddLinks == 1 && r.Chance(1, 3)):
+			dest = oddDest(r, dest, []int{0, 0, 6}[r.Intn(3)])
+		case o.OddLinks == 2:
+			dest = oddDest(r, dest, -1)
 		}
 		t[p] = hNode{Kind: "link", Dest: dest}
 	}
@@ -315,6 +399,84 @@ func flipAt(data []byte, at int) []byte {
 	out := append([]byte(nil), data...)
 	out[at] ^= 0x40
 	return out
+}
+
+// blockwise applies several damages to the content of one file, block by block: pattern selects
+// which signed blocks are modified (0 = the first only, 1 = all but the last, 2 = the last only,
+// 3 = a random non-empty set, 4 = none, 5 = all), tail what happens at the end of the file (0 = nothing,
+// 1 = a few bytes appended, 2 = appended up to / beyond the next block boundary, 3 = cut at a
+// block boundary or inside the last block).  The validator then reports a sequence of wounds and
+// healthy-block notices for that one file (damaged block(s), intact last block, size mismatch, ...).
+// Returns nil when nothing would change.
+func blockwise(r *lib.Rng, d []byte, pattern, tail int) ([]byte, string) {
+	if len(d) == 0 {
+		return nil, ""
+	}
+	nb := (len(d) + healBS - 1) / healBS
+	mask := make([]bool, nb)
+	switch pattern {
+	case 0:
+		mask[0] = true
+	case 1:
+		for k := 0; k+1 < nb; k++ {
+			mask[k] = true
+		}
+		if nb == 1 {
+			mask[0] = true
+		}
+	case 2:
+		mask[nb-1] = true
+	case 3:
+		for k := range mask {
+			mask[k] = r.Bool()
+		}
+		mask[r.Intn(nb)] = true
+	case 5:
+		for k := range mask {
+			mask[k] = true
+		}
+	}
+	out := append([]byte(nil), d...)
+	var flips []string
+	for k, m := range mask {
+		if !m {
+			continue
+		}
+		lo, hi := k*healBS, min(len(d), (k+1)*healBS)
+		at := []int{lo, hi - 1, lo + r.Intn(hi-lo)}[r.Intn(3)]
+		out[at] ^= 0x40
+		flips = append(flips, strconv.Itoa(at))
+	}
+	what := "flips@" + strings.Join(flips, ",")
+	if len(flips) > 8 {
+		what = fmt.Sprintf("flips@%s,...(%d blocks)", strings.Join(flips[:4], ","), len(flips))
+	}
+	switch tail {
+	case 1:
+		by := []int{1, 7, 100}[r.Intn(3)]
+		out = append(out, bytes.Repeat([]byte{byte(1 + r.Intn(250))}, by)...)
+		what += fmt.Sprintf(" +%d", by)
+	case 2:
+		toEnd := healBS - len(d)%healBS
+		by := []int{toEnd, toEnd + 1, healBS + 3, 2*healBS + 3}[r.Intn(4)]
+		out = append(out, bytes.Repeat([]byte{byte(1 + r.Intn(250))}, by)...)
+		what += fmt.Sprintf(" +%d", by)
+	case 3:
+		cands := []int{len(d) - 1, (nb - 1) * healBS, (nb-1)*healBS + 1}
+		if nb > 1 {
+			cands = append(cands, (nb-1)*healBS-1, r.Range(1, nb-1)*healBS)
+		}
+		to := cands[r.Intn(len(cands))]
+		if to < 0 || to >= len(d) {
+			to = len(d) - 1
+		}
+		out = out[:to]
+		what += fmt.Sprintf(" cut->%d", to)
+	}
+	if bytes.Equal(out, d) {
+		return nil, ""
+	}
+	return out, what
 }
 
 // damageOnce applies one damage to cur (a tree below "t0") given the signed build; returns what
@@ -531,20 +693,41 @@ func damageOnce(r *lib.Rng, signed hTree, cur hTree, asideN *int, kind int) heal
 			cur[p] = hNode{Kind: "link", Dest: "n79"}
 		}
 		return healDamage{What: "extra:" + p}
+	case 13: // several damages inside one file (block-wise pattern + end of file), larger files preferred
+		var big []string
+		for _, f := range files {
+			if usable(f) && len(cur[tp(f)].Data) > healBS {
+				big = append(big, f)
+			}
+		}
+		f := pick(files)
+		if len(big) > 0 && r.Chance(3, 4) {
+			f = big[r.Intn(len(big))]
+		}
+		if f == "" {
+			return healDamage{}
+		}
+		data, what := blockwise(r, cur[tp(f)].Data, r.Intn(6), r.Intn(4))
+		if data == nil {
+			return healDamage{}
+		}
+		cur[tp(f)] = hNode{Kind: "file", Data: data}
+		return healDamage{What: fmt.Sprintf("blockwise:%s %s", f, what)}
 	}
 	return healDamage{}
 }
 
-const healDamageKinds = 13
+const healDamageKinds = 14
 
 // ---------- one case ----------
 
 type healCase struct {
-	Class   string
-	Signed  hTree // relative to the target
-	Damaged hTree // relative to base ("t0/..." and aside dirs); no "t0" key = target missing
-	Damages []string
-	Procs   []int
+	OracleOnly bool // too large for the model
+	Class      string
+	Signed     hTree // relative to the target
+	Damaged    hTree // relative to base ("t0/..." and aside dirs); no "t0" key = target missing
+	Damages    []string
+	Procs      []int
 }
 
 func validTree(signed hTree) hTree {
@@ -730,12 +913,25 @@ func runHealCase(c *Ctx, hc *healCase, idx int) error {
 			hide = true
 		}
 	}
-	cs := &lib.Case{Group: "heal", Class: hc.Class, Nontrivial: len(hc.Damages) >= 2 || hide,
+	// a symlink destination the model's names cannot express ("./x", "x/", "a//b", absolute, ...):
+	// the case is judged by the oracle only
+	group := "heal"
+	if hc.OracleOnly {
+		group = ""
+	}
+	for _, n := range hc.Signed {
+		if n.Kind == "link" && !destRepresentable(n.Dest) {
+			group = ""
+		}
+	}
+	cs := &lib.Case{Group: group, Class: hc.Class, Nontrivial: len(hc.Damages) >= 2 || hide,
 		Input: map[string]interface{}{"signed": hc.Signed.summary(), "damaged": hc.Damaged.summary(), "damages": hc.Damages,
 			"container": containerSummary(sig)},
 		Obs: obsRuns, Oracle: oracle}
 	cs.Finding = healFinding(hc, oracle)
-	cs.Coq = healCoq(hc, sig, runs)
+	if group != "" {
+		cs.Coq = healCoq(hc, sig, runs)
+	}
 	c.Out.Emit(cs)
 	return nil
 }
@@ -840,6 +1036,28 @@ func healCorpus() []*healCase {
 			"t0/l1": hNode{Kind: "link", Dest: "n2"}, "t0/d0/f2": file(""), "t0/f3": file("")}})
 	// a valid directory: nothing may be touched
 	out = append(out, &healCase{Class: "corpus/valid", Signed: s5, Damaged: validTree(s5)})
+	// several damages inside one file of exactly two blocks: first block modified, last signed
+	// block intact, a few bytes appended (wound, healthy-block notice for the last signed block,
+	// then further wounds for the same file)
+	two := make([]byte, 2*healBS)
+	for i := range two {
+		two[i] = byte('a' + i/healBS)
+	}
+	two[0], two[healBS-1], two[healBS], two[2*healBS-1] = 1, 2, 3, 4
+	s6 := hTree{"d0": dir, "d0/f0": hNode{Kind: "file", Data: two}, "f1": file("x")}
+	bad := append(flipAt(two, 10), bytes.Repeat([]byte("tail"), 2)...)
+	out = append(out, &healCase{Class: "corpus/blockwise-first+appended", Signed: s6,
+		Damages: []string{"blockwise:d0/f0 flips@10 +8"},
+		Damaged: hTree{"t0": dir, "t0/d0": dir, "t0/d0/f0": hNode{Kind: "file", Data: bad}, "t0/f1": file("x")}})
+	// symlinks whose signed destination is not in canonical form, lost: with detours through ".."
+	// (model and oracle), and with "./", a trailing slash, a double slash (oracle only)
+	s7 := hTree{"d0": dir, "d0/f0": file("hello"), "d0/l0": hNode{Kind: "link", Dest: "n1/../f0"}, "l1": hNode{Kind: "link", Dest: "d0/n2/.."}}
+	out = append(out, &healCase{Class: "corpus/oddlink-unlink", Signed: s7, Damages: []string{"unlink:d0/l0", "unlink:l1"},
+		Damaged: hTree{"t0": dir, "t0/d0": dir, "t0/d0/f0": file("hello")}})
+	s8 := hTree{"d0": dir, "d0/f0": file("hello"), "d0/l0": hNode{Kind: "link", Dest: "./f0"}, "l1": hNode{Kind: "link", Dest: "d0/"},
+		"l2": hNode{Kind: "link", Dest: "d0//f0"}}
+	out = append(out, &healCase{Class: "corpus/oddlink-oracle-only-root-missing", Signed: s8, Damages: []string{"root-missing"}, Damaged: hTree{}})
+	out = append(out, &healCase{Class: "corpus/oddlink-oracle-only-valid", Signed: s8, Damaged: validTree(s8)})
 	for _, hc := range out {
 		hc.Procs = []int{1, 2, 16}
 	}
@@ -847,15 +1065,15 @@ func healCorpus() []*healCase {
 }
 
 func genHealCase(r *lib.Rng, i int) *healCase {
-	opts := healBuildOpts{MaxDirs: 6, MaxFiles: 6, MaxLinks: 3}
+	opts := healBuildOpts{MaxDirs: 6, MaxFiles: 6, MaxLinks: 3, OddLinks: 1}
 	class := "small"
 	switch {
 	case i%6 == 5:
-		opts = healBuildOpts{MaxDirs: 4, MaxFiles: 3, MaxLinks: 1, Blocky: 2}
+		opts = healBuildOpts{MaxDirs: 4, MaxFiles: 3, MaxLinks: 1, Blocky: 2, OddLinks: 1}
 		class = "blocky"
 	case i%40 == 7:
 		// many entries: the healer lags behind the validator, the wound channel fills up
-		opts = healBuildOpts{MaxDirs: 30, MaxFiles: 120, MaxLinks: 20}
+		opts = healBuildOpts{MaxDirs: 30, MaxFiles: 120, MaxLinks: 20, OddLinks: 1}
 		class = "wide"
 	}
 	signed := genHealBuild(r, opts)
@@ -928,6 +1146,139 @@ func genHealCase(r *lib.Rng, i int) *healCase {
 	return hc
 }
 
+// genBlockwiseCase: three files of two to four blocks, each with a different combination of
+// (which signed blocks are modified) x (what happens at the end of the file), enumerated in turn:
+// slot s = 3j+k has pattern s%4 and tail (s/4)%4; slots 0-15, 32-47, ... use files that are a
+// whole number of blocks long, the others files with a short last block.  From the third round
+// on, other random damages are added.
+func genBlockwiseCase(r *lib.Rng, j int) *healCase {
+	sizes := make([]int, 3)
+	for k := range sizes {
+		if ((3*j+k)/16)%2 == 0 {
+			sizes[k] = healAlignedSizes[r.Intn(len(healAlignedSizes))]
+		} else {
+			sizes[k] = healUnalignedSizes[r.Intn(len(healUnalignedSizes))]
+		}
+	}
+	signed := genHealBuild(r, healBuildOpts{MaxDirs: 3, MaxFiles: 4, MaxLinks: 1, Sizes: sizes})
+	hc := &healCase{Signed: signed, Procs: []int{1, 2, 16}, Class: "blockwise"}
+	cur := validTree(signed)
+	for k := range sizes {
+		s := 3*j + k
+		for _, p := range signed.paths() {
+			if signed[p].Kind != "file" || p[strings.LastIndex(p, "/")+1:] != fmt.Sprintf("f%d", k) {
+				continue
+			}
+			data, what := blockwise(r, signed[p].Data, s%4, (s/4)%4)
+			if data != nil {
+				cur["t0/"+p] = hNode{Kind: "file", Data: data}
+				hc.Damages = append(hc.Damages, fmt.Sprintf("blockwise:%s %s", p, what))
+			}
+		}
+	}
+	if 3*j >= 32 {
+		asideN := 0
+		for n := r.Intn(3); n > 0; n-- {
+			if d := damageOnce(r, signed, cur, &asideN, r.Intn(healDamageKinds)); d.What != "" {
+				hc.Damages = append(hc.Damages, d.What)
+			}
+		}
+		hc.Class = "blockwise+other"
+	}
+	hc.Damaged = cur
+	return hc
+}
+
+// genBigFileCase: one file of more than 4 MiB (pwr.MaxWoundSize: a longer run of damaged blocks
+// reaches the healer as several wounds for the same file) with block-wise damage, beside a small
+// one.  Oracle only: the content is too long for the model.
+func genBigFileCase(r *lib.Rng, j int) *healCase {
+	const maxWound = 4 * 1024 * 1024
+	size := maxWound + []int{2 * healBS, healBS + 5, 0, 3*healBS - 1}[j%4]
+	signed := hTree{"d0": hNode{Kind: "dir"}, "d0/f0": hNode{Kind: "file", Data: structuredContent(r, size)},
+		"f1": hNode{Kind: "file", Data: structuredContent(r, 100)}}
+	hc := &healCase{Signed: signed, Procs: []int{1, 2, 16}, Class: "bigfile-oracle-only", OracleOnly: true}
+	cur := validTree(signed)
+	pattern := []int{5, 1, 3, 0, 2}[j%5]
+	data, what := blockwise(r, signed["d0/f0"].Data, pattern, (j+1)%4)
+	if data != nil {
+		cur["t0/d0/f0"] = hNode{Kind: "file", Data: data}
+		hc.Damages = append(hc.Damages, "blockwise:d0/f0 "+what)
+	}
+	if j%3 == 1 {
+		cur["t0/f1"] = hNode{Kind: "file", Data: flipAt(signed["f1"].Data, 0)}
+		hc.Damages = append(hc.Damages, "flip:f1@0")
+	}
+	hc.Damaged = cur
+	return hc
+}
+
+// genOddLinkCase: builds whose symlinks have legal destinations that are not in canonical form
+// (made by hand: "./libfoo.so.1", "Versions/A/Resources/", "a//b", "a/../b", ...).  Even j: only
+// the forms the model can express (detours through ".."), odd j: all forms, oracle-only.  The
+// damages go through: nothing (a valid build stays untouched), target missing, every link
+// deleted or retargeted, links replaced by files / directories, subtree-hiding swaps of their
+// parents, random combinations.
+func genOddLinkCase(r *lib.Rng, j int) *healCase {
+	opts := healBuildOpts{MaxDirs: 4, MaxFiles: 4, MaxLinks: 4, MinLinks: 2, OddLinks: 3}
+	class := "oddlink"
+	if j%2 == 1 {
+		opts.OddLinks = 2
+		class = "oddlink-oracle-only"
+	}
+	signed := genHealBuild(r, opts)
+	hc := &healCase{Signed: signed, Procs: []int{1, 2, 16}}
+	cur := validTree(signed)
+	asideN := 0
+	add := func(kind int) {
+		if d := damageOnce(r, signed, cur, &asideN, kind); d.What != "" {
+			hc.Damages = append(hc.Damages, d.What)
+		}
+	}
+	nl := 0
+	for _, n := range signed {
+		if n.Kind == "link" {
+			nl++
+		}
+	}
+	switch (j / 2) % 6 {
+	case 0:
+		class += "/valid"
+	case 1:
+		class += "/root-missing"
+		cur = hTree{}
+		hc.Damages = []string{"root-missing"}
+	case 2:
+		class += "/unlink-retarget"
+		for k := 0; k < 2*nl; k++ { // retargeted links stay usable: most links are hit
+			add(5)
+		}
+	case 3:
+		class += "/link->other"
+		for k := 0; k < nl; k++ {
+			add(7)
+		}
+		add(r.Intn(healDamageKinds))
+	case 4:
+		class += "/hidden-parents"
+		add(8 + r.Intn(4))
+		add(5)
+		add(r.Intn(healDamageKinds))
+	default:
+		class += "/combo"
+		for n := r.Range(2, 4); n > 0; n-- {
+			add(r.Intn(healDamageKinds))
+		}
+		add(5)
+	}
+	if len(hc.Damages) == 0 && (j/2)%6 != 0 {
+		class += "-none"
+	}
+	hc.Class = class
+	hc.Damaged = cur
+	return hc
+}
+
 func runC06(c *Ctx) error {
 	if os.Getenv("WHARFOBS_C06_ONLY") == "fsmodel" { // debugging aid
 		return runFSModel(c)
@@ -945,6 +1296,30 @@ func runC06(c *Ctx) error {
 		cr := r.Fork()
 		hc := genHealCase(cr, i)
 		if err := runHealCase(c, hc, idx); err != nil {
+			return err
+		}
+		idx++
+	}
+	// block-wise damage patterns inside multi-block files
+	rb := c.Rng.Fork()
+	for j, m := 0, c.N(11, 96); j < m; j++ {
+		if err := runHealCase(c, genBlockwiseCase(rb.Fork(), j), idx); err != nil {
+			return err
+		}
+		idx++
+	}
+	// runs of damaged blocks longer than the largest wound
+	rg := c.Rng.Fork()
+	for j, m := 0, c.N(2, 12); j < m; j++ {
+		if err := runHealCase(c, genBigFileCase(rg.Fork(), j), idx); err != nil {
+			return err
+		}
+		idx++
+	}
+	// symlinks whose signed destination is not in canonical form
+	rl := c.Rng.Fork()
+	for j, m := 0, c.N(12, 96); j < m; j++ {
+		if err := runHealCase(c, genOddLinkCase(rl.Fork(), j), idx); err != nil {
 			return err
 		}
 		idx++
